@@ -1,6 +1,6 @@
 (* Model/Dispatch.v — one entry point for the harness: op code + encoded argument -> encoded
    result.  Op codes are listed in harness/ops.py.  Glue, no proofs. *)
-From VK Require Import Base Core STV Pairwise Rules PV Election Codec.
+From VK Require Import Base Core STV Pairwise Rules PV Election BallotCtor Cleaning Codec.
 
 Definition op_remove_cand (v : val) : val :=
   match v with
@@ -164,6 +164,65 @@ Definition op_history (v : val) : val :=
   | _ => VE EScript
   end.
 
+Definition dPynum (v : val) : res pynum :=
+  match v with
+  | VL [VZ 1; VZ z] => ok (PInt z)
+  | VL [VZ 2; q] => let! q' := dQ q in ok (PFrac q')
+  | VL [VZ 3; q] => let! q' := dQ q in ok (PFloat q')
+  | _ => err EScript
+  end.
+Definition op_make_ballot (v : val) : val :=
+  match v with
+  | VL [r; w; d; i; vset] =>
+      eRes eBallot (let! r' := dRanking r in let! w' := dPynum w in
+                    let! d' := dList (dPair dPos dPynum) d in
+                    let! i' := dOpt dPos i in let! v' := dOpt (dList dPos) vset in
+                    ok (make_ballot cand r' w' d' i' v'))
+  | _ => VE EScript
+  end.
+Definition op_mk_profile (v : val) : val :=
+  match v with
+  | VL [bs; cs] =>
+      eRes (fun p => VL [eProfile p; eNat (length (ballots p)); VQ (total_wt cand (ballots p));
+                         eCset (cast_cands cand ceqb (ballots p))])
+           (let! bs' := dList dBallot bs in let! cs' := dCset cs in mk_profile cand ceqb bs' cs')
+  | _ => VE EScript
+  end.
+Definition op_profile_eq (v : val) : val :=
+  match v with
+  | VL [p; q] => eRes VB (let! p' := dProfile p in let! q' := dProfile q in
+                          ok (profile_eq cand ceqb p' q'))
+  | _ => VE EScript
+  end.
+Definition op_profile_add (v : val) : val :=
+  match v with
+  | VL [p; q] => eRes eProfile (let! p' := dProfile p in let! q' := dProfile q in
+                                profile_add cand ceqb p' q')
+  | _ => VE EScript
+  end.
+Definition op_add_missing (v : val) : val :=
+  eRes eProfile (let! p := dProfile v in add_missing cand ceqb p).
+Definition op_expand_tied (v : val) : val :=
+  eRes eBallots (let! b := dBallot v in expand_tied_ballot cand b).
+Definition op_resolve_ties (v : val) : val :=
+  eRes eProfile (let! p := dProfile v in resolve_profile_ties cand ceqb p).
+
+Definition op_remove_empty (v : val) : val :=
+  match v with
+  | VL [p; k] => eRes eProfile (let! p' := dProfile p in let! k' := dB k in
+                                remove_empty_ballots cand ceqb p' k')
+  | _ => VE EScript
+  end.
+Definition eProfileOrdered (p : profile) : val := VL [eBallotsOrdered (ballots p); eCset (cands p)].
+Definition op_dedup (v : val) : val :=
+  eRes eProfileOrdered (let! p := dProfile v in deduplicate_profiles cand ceqb p).
+Definition op_remove_noncands (v : val) : val :=
+  match v with
+  | VL [p; non] => eRes eProfileOrdered (let! p' := dProfile p in let! n := dCset non in
+                                         remove_noncands cand ceqb p' n)
+  | _ => VE EScript
+  end.
+
 Definition dispatch (op : Z) (v : val) : val :=
   match op with
   | 1 => op_remove_cand v
@@ -177,10 +236,20 @@ Definition dispatch (op : Z) (v : val) : val :=
   | 9 => op_elect v
   | 10 => op_condense v
   | 11 => op_transfer v
+  | 12 => op_add_missing v
+  | 13 => op_expand_tied v
+  | 14 => op_resolve_ties v
   | 20 => op_stv v
   | 21 => op_rule v
   | 22 => op_wrule v
   | 41 => op_history v
+  | 50 => op_make_ballot v
+  | 60 => op_remove_empty v
+  | 61 => op_dedup v
+  | 62 => op_remove_noncands v
+  | 51 => op_mk_profile v
+  | 52 => op_profile_eq v
+  | 53 => op_profile_add v
   | 30 => op_pairwise v
   | 40 => op_queries v
   | _ => VE EOther
